@@ -272,11 +272,20 @@ Proof.
   exists b'. split; [reflexivity|exact HI'].
 Qed.
 
-Lemma readFd_ok avail b l : Inv b l ->
-  exists b', readFd avail b = Ok (b', length (firstn (readFd_capacity b) avail)) /\
-             Inv b' (l ++ firstn (readFd_capacity b) avail).
+Lemma readFd_capacity_iovcnt b :
+  readFd_capacity b = writableBytes b + (if readFd_iovcnt b =? 2 then kExtraBuf else 0).
 Proof.
-  intros HI. unfold readFd.
+  unfold readFd_capacity, readFd_iovcnt.
+  destruct (Nat.ltb_spec (writableBytes b) kExtraBuf); cbn [Nat.eqb]; lia.
+Qed.
+
+Lemma readFd_data_ok avail b l : Inv b l ->
+  let d := firstn (readFd_capacity b) avail in
+  exists b', readFd (KData avail) b =
+               Ok (b', mkRfd (Z.of_nat (length d)) (readFd_iovcnt b) (writableBytes b) None) /\
+             Inv b' (l ++ d).
+Proof.
+  intros HI. cbn zeta. unfold readFd.
   set (data := firstn (readFd_capacity b) avail).
   destruct (Nat.leb_spec (length data) (writableBytes b)) as [Hle|Hgt].
   - destruct (store_tail b l data HI Hle) as (s' & -> & HI' & _). cbn [mem bind].
@@ -285,11 +294,13 @@ Proof.
       by (apply firstn_length_le; lia).
     destruct (store_tail b l (firstn (writableBytes b) data) HI) as (s' & -> & HI' & Hlen); [lia|].
     cbn [mem bind]. rewrite Hf in HI'.
-    assert (Hcap : length data <= writableBytes b + kExtraBuf).
-    { unfold data. rewrite firstn_length. unfold readFd_capacity.
-      destruct (Nat.ltb_spec (writableBytes b) kExtraBuf); lia. }
+    assert (Hcap : length data <= readFd_capacity b).
+    { unfold data. rewrite firstn_length. lia. }
+    rewrite readFd_capacity_iovcnt in Hcap.
     rewrite skipn_length.
+    destruct (Nat.eqb_spec (readFd_iovcnt b) 2) as [Hc|Hc]; [|lia].
     destruct (Nat.leb_spec (length data - writableBytes b) kExtraBuf); [|lia].
+    cbn [andb].
     pose proof (inv_sizes b l HI) as (H1 & H2 & H3 & H4).
     assert (Hwe : widx b + writableBytes b = length s') by (unfold writableBytes in *; lia).
     rewrite Hwe in HI'.
@@ -359,75 +370,165 @@ Proof.
   cbn [firstn]. rewrite app_nil_r. apply firstn_all2. rewrite skipn_length. lia.
 Qed.
 
+(* ---- rejected preconditions ------------------------------------------------- *)
+Lemma retrieve_rej n b : readableBytes b < n -> retrieve n b = Rejected.
+Proof. intros H. unfold retrieve. destruct (Nat.leb_spec n (readableBytes b)); [lia|reflexivity]. Qed.
+
+Lemma peekBytes_rej n b : readableBytes b < n -> peekBytes n b = Rejected.
+Proof. intros H. unfold peekBytes. destruct (Nat.leb_spec n (readableBytes b)); [lia|reflexivity]. Qed.
+
+Lemma ptr_ok_true off b : ptr_ok off b = true ->
+  (0 <= off)%Z /\ Z.to_nat off <= readableBytes b.
+Proof.
+  unfold ptr_ok. intros H. apply andb_true_iff in H as [H1 H2].
+  apply Z.leb_le in H1, H2. split; [exact H1|lia].
+Qed.
+
+(* ---- the derived members ----------------------------------------------------- *)
+Lemma retrieveAsString_ok n b l : Inv b l -> n <= readableBytes b ->
+  exists b', retrieveAsString n b = Ok (b', firstn n l) /\ Inv b' (skipn n l).
+Proof.
+  intros HI Hn. unfold retrieveAsString. rewrite (peekBytes_ok n b l HI Hn). cbn [bind].
+  destruct (retrieve_ok n b l HI Hn) as (b' & -> & HI'). cbn [bind].
+  exists b'. split; [reflexivity|exact HI'].
+Qed.
+
+Lemma peekInt_ok w b l : Inv b l -> wbytes w <= readableBytes b ->
+  peekInt w b = Ok (be_decode_signed (firstn (wbytes w) l)).
+Proof. intros HI Hn. unfold peekInt. rewrite (peekBytes_ok _ b l HI Hn). reflexivity. Qed.
+
+Lemma readInt_ok w b l : Inv b l -> wbytes w <= readableBytes b ->
+  exists b', readInt w b = Ok (b', be_decode_signed (firstn (wbytes w) l)) /\
+             Inv b' (skipn (wbytes w) l).
+Proof.
+  intros HI Hn. unfold readInt, retrieveInt. rewrite (peekInt_ok w b l HI Hn). cbn [bind].
+  destruct (retrieve_ok _ b l HI Hn) as (b' & -> & HI'). cbn [bind].
+  exists b'. split; [reflexivity|exact HI'].
+Qed.
+
+Lemma findAt_ok f off b l : Inv b l -> ptr_ok off b = true ->
+  findAt f off b = Ok (option_map (fun i => Z.to_nat off + i) (f (skipn (Z.to_nat off) l))).
+Proof.
+  intros HI Hp. unfold findAt. rewrite Hp. apply ptr_ok_true in Hp as [_ Hn].
+  apply findFrom_ok; assumption.
+Qed.
+
 (* ---- one step ------------------------------------------------------------- *)
 Definition Inv2 (st : state) (s : sstate) : Prop :=
   Inv (fst st) (fst s) /\ Inv (snd st) (snd s).
 
 Theorem step_refines st s o : Inv2 st s ->
   if guard (fst st) o then
-    exists st', step st o = Ok (st', snd (spec_step s (readFd_capacity (fst st)) o)) /\
-                Inv2 st' (fst (spec_step s (readFd_capacity (fst st)) o))
+    exists st', step st o = Ok (st', snd (spec_step s (fst st) o)) /\
+                Inv2 st' (fst (spec_step s (fst st) o))
   else step st o = Rejected.
 Proof.
   destruct st as [b b2], s as [l l2]. intros [HI HI2]. cbn [fst snd] in *.
   pose proof (inv_sizes b l HI) as (H1 & H2 & H3 & H4).
   destruct o; cbn [guard step spec_step fst snd on_fst].
-  - destruct (append_ok d b l HI) as (b' & -> & HI'). cbn [bind].
+  - (* Append *)
+    destruct (append_ok d b l HI) as (b' & -> & HI'). cbn [bind].
     eexists; split; [reflexivity|split; assumption].
-  - destruct (Nat.leb_spec (length d) (prependableBytes b)) as [Hg|Hg].
+  - (* Prepend *)
+    destruct (Nat.leb_spec (length d) (prependableBytes b)) as [Hg|Hg].
     + destruct (prepend_ok d b l HI Hg) as (b' & -> & HI'). cbn [bind].
       eexists; split; [reflexivity|split; assumption].
     + unfold prepend. destruct (Nat.leb_spec (length d) (prependableBytes b)); [lia|reflexivity].
-  - destruct (Nat.leb_spec n (readableBytes b)) as [Hg|Hg].
+  - (* Retrieve *)
+    destruct (Nat.leb_spec n (readableBytes b)) as [Hg|Hg].
     + destruct (retrieve_ok n b l HI Hg) as (b' & -> & HI'). cbn [bind].
       eexists; split; [reflexivity|split; assumption].
-    + unfold retrieve. destruct (Nat.leb_spec n (readableBytes b)); [lia|reflexivity].
-  - eexists; split; [reflexivity|split; [eapply retrieveAll_inv; exact HI|assumption]].
-  - destruct (Nat.leb_spec n (readableBytes b)) as [Hg|Hg].
-    + rewrite (peekBytes_ok n b l HI Hg). cbn [bind].
-      destruct (retrieve_ok n b l HI Hg) as (b' & -> & HI'). cbn [bind].
-      eexists; split; [reflexivity|split; assumption].
-    + unfold peekBytes. destruct (Nat.leb_spec n (readableBytes b)); [lia|reflexivity].
-  - destruct (ensureWritable_ok n b l HI) as (b' & -> & HI' & _). cbn [bind].
+    + rewrite retrieve_rej by exact Hg. reflexivity.
+  - (* RetrieveUntil *)
+    unfold retrieveUntil. destruct (ptr_ok off b) eqn:Hp; [|reflexivity].
+    apply ptr_ok_true in Hp as [_ Hn].
+    destruct (retrieve_ok _ b l HI Hn) as (b' & -> & HI'). cbn [bind].
     eexists; split; [reflexivity|split; assumption].
-  - destruct (Nat.leb_spec (length d) (writableBytes b)) as [Hg|Hg].
+  - (* RetrieveInt *)
+    unfold retrieveInt. destruct (Nat.leb_spec (wbytes w) (readableBytes b)) as [Hg|Hg].
+    + destruct (retrieve_ok _ b l HI Hg) as (b' & -> & HI'). cbn [bind].
+      eexists; split; [reflexivity|split; assumption].
+    + rewrite retrieve_rej by exact Hg. reflexivity.
+  - (* RetrieveAll *)
+    eexists; split; [reflexivity|split; [eapply retrieveAll_inv; exact HI|assumption]].
+  - (* RetrieveAsString *)
+    destruct (Nat.leb_spec n (readableBytes b)) as [Hg|Hg].
+    + destruct (retrieveAsString_ok n b l HI Hg) as (b' & -> & HI'). cbn [bind fst snd].
+      eexists; split; [reflexivity|split; assumption].
+    + unfold retrieveAsString. rewrite peekBytes_rej by exact Hg. reflexivity.
+  - (* RetrieveAllAsString *)
+    unfold retrieveAllAsString.
+    destruct (retrieveAsString_ok (readableBytes b) b l HI (le_n _)) as (b' & -> & HI').
+    cbn [bind fst snd]. rewrite H3, firstn_all in *. rewrite skipn_all in HI'.
+    eexists; split; [reflexivity|split; assumption].
+  - (* ToStringPiece *)
+    unfold toStringPiece. rewrite (peekBytes_ok _ b l HI (le_n _)). cbn [bind].
+    rewrite H3, firstn_all. eexists; split; [reflexivity|split; assumption].
+  - (* EnsureWritable *)
+    destruct (ensureWritable_ok n b l HI) as (b' & -> & HI' & _). cbn [bind].
+    eexists; split; [reflexivity|split; assumption].
+  - (* HasWritten *)
+    destruct (Nat.leb_spec (length d) (writableBytes b)) as [Hg|Hg].
     + destruct (hasWritten_ok d b l HI Hg) as (b' & -> & HI'). cbn [bind].
       eexists; split; [reflexivity|split; assumption].
     + unfold hasWrittenBytes. destruct (Nat.leb_spec (length d) (writableBytes b)); [lia|reflexivity].
-  - destruct (Nat.leb_spec n (readableBytes b)) as [Hg|Hg].
+  - (* Unwrite *)
+    destruct (Nat.leb_spec n (readableBytes b)) as [Hg|Hg].
     + destruct (unwrite_ok n b l HI Hg) as (b' & -> & HI'). cbn [bind].
       eexists; split; [reflexivity|split; assumption].
     + unfold unwrite. destruct (Nat.leb_spec n (readableBytes b)); [lia|reflexivity].
-  - destruct (shrink_ok reserve b l HI) as (b' & -> & HI'). cbn [bind].
+  - (* Shrink *)
+    destruct (shrink_ok reserve b l HI) as (b' & -> & HI'). cbn [bind].
     eexists; split; [reflexivity|split; assumption].
-  - eexists; split; [reflexivity|split; assumption].
-  - destruct (readFd_ok avail b l HI) as (b' & -> & HI'). cbn [bind fst snd].
+  - (* InternalCapacity *)
+    unfold internalCapacity_lb. rewrite H4.
     eexists; split; [reflexivity|split; assumption].
-  - unfold appendInt. destruct (append_ok (be_encode k x) b l HI) as (b' & -> & HI'). cbn [bind].
+  - (* Swap *)
     eexists; split; [reflexivity|split; assumption].
-  - unfold prependInt. pose proof (be_encode_length k x) as Hlen.
-    destruct (Nat.leb_spec k (prependableBytes b)) as [Hg|Hg].
-    + destruct (prepend_ok (be_encode k x) b l HI) as (b' & -> & HI'); [lia|]. cbn [bind].
+  - (* Assign *)
+    eexists; split; [reflexivity|split; assumption].
+  - (* ReadFd *)
+    destruct k as [avail|e]; cbn [delivered].
+    + destruct (readFd_data_ok avail b l HI) as (b' & -> & HI'). cbn [bind fst snd].
+      eexists; split; [reflexivity|split; assumption].
+    + cbn [readFd bind fst snd]. rewrite app_nil_r.
+      eexists; split; [reflexivity|split; assumption].
+  - (* AppendInt *)
+    unfold appendInt. destruct (append_ok (be_encode (wbytes w) x) b l HI) as (b' & -> & HI').
+    cbn [bind]. eexists; split; [reflexivity|split; assumption].
+  - (* PrependInt *)
+    unfold prependInt. pose proof (be_encode_length (wbytes w) x) as Hlen.
+    destruct (Nat.leb_spec (wbytes w) (prependableBytes b)) as [Hg|Hg].
+    + destruct (prepend_ok (be_encode (wbytes w) x) b l HI) as (b' & -> & HI'); [lia|]. cbn [bind].
       eexists; split; [reflexivity|split; assumption].
     + unfold prepend. rewrite Hlen.
-      destruct (Nat.leb_spec k (prependableBytes b)); [lia|reflexivity].
-  - unfold peekInt. destruct (Nat.leb_spec k (readableBytes b)) as [Hg|Hg].
-    + rewrite (peekBytes_ok k b l HI Hg). cbn [bind].
+      destruct (Nat.leb_spec (wbytes w) (prependableBytes b)); [lia|reflexivity].
+  - (* PeekInt *)
+    destruct (Nat.leb_spec (wbytes w) (readableBytes b)) as [Hg|Hg].
+    + rewrite (peekInt_ok w b l HI Hg). cbn [bind].
       eexists; split; [reflexivity|split; assumption].
-    + unfold peekBytes. destruct (Nat.leb_spec k (readableBytes b)); [lia|reflexivity].
-  - unfold peekInt. destruct (Nat.leb_spec k (readableBytes b)) as [Hg|Hg].
-    + rewrite (peekBytes_ok k b l HI Hg). cbn [bind].
-      destruct (retrieve_ok k b l HI Hg) as (b' & -> & HI'). cbn [bind].
+    + unfold peekInt. rewrite peekBytes_rej by exact Hg. reflexivity.
+  - (* ReadInt *)
+    destruct (Nat.leb_spec (wbytes w) (readableBytes b)) as [Hg|Hg].
+    + destruct (readInt_ok w b l HI Hg) as (b' & -> & HI'). cbn [bind fst snd].
       eexists; split; [reflexivity|split; assumption].
-    + unfold peekBytes. destruct (Nat.leb_spec k (readableBytes b)); [lia|reflexivity].
-  - destruct (Nat.leb_spec from (readableBytes b)) as [Hg|Hg].
-    + rewrite (findFrom_ok _ from b l HI Hg). cbn [bind].
+    + unfold readInt, peekInt. rewrite peekBytes_rej by exact Hg. reflexivity.
+  - (* FindCRLF0 *)
+    rewrite (findFrom_ok _ 0 b l HI (Nat.le_0_l _)). cbn [bind].
+    eexists; split; [reflexivity|split; assumption].
+  - (* FindEOL0 *)
+    rewrite (findFrom_ok _ 0 b l HI (Nat.le_0_l _)). cbn [bind].
+    eexists; split; [reflexivity|split; assumption].
+  - (* FindCRLF *)
+    destruct (ptr_ok from b) eqn:Hp.
+    + rewrite (findAt_ok _ from b l HI Hp). cbn [bind].
       eexists; split; [reflexivity|split; assumption].
-    + unfold findFrom. destruct (Nat.leb_spec from (readableBytes b)); [lia|reflexivity].
-  - destruct (Nat.leb_spec from (readableBytes b)) as [Hg|Hg].
-    + rewrite (findFrom_ok _ from b l HI Hg). cbn [bind].
+    + unfold findAt. rewrite Hp. reflexivity.
+  - (* FindEOL *)
+    destruct (ptr_ok from b) eqn:Hp.
+    + rewrite (findAt_ok _ from b l HI Hp). cbn [bind].
       eexists; split; [reflexivity|split; assumption].
-    + unfold findFrom. destruct (Nat.leb_spec from (readableBytes b)); [lia|reflexivity].
+    + unfold findAt. rewrite Hp. reflexivity.
 Qed.
 
 (* ---- every reachable state -------------------------------------------------- *)
@@ -435,7 +536,7 @@ Inductive reach : state -> sstate -> Prop :=
 | reach_init n m : reach (new_buf n, new_buf m) ([], [])
 | reach_step st s o st' out :
     reach st s -> step st o = Ok (st', out) ->
-    reach st' (fst (spec_step s (readFd_capacity (fst st)) o)).
+    reach st' (fst (spec_step s (fst st) o)).
 
 Lemma reach_inv st s : reach st s -> Inv2 st s.
 Proof.
@@ -453,7 +554,7 @@ Fixpoint spec_run (st : state) (s : sstate) (ops : list op) : sstate :=
   | [] => s
   | o :: rest =>
       match step st o with
-      | Ok (st', _) => spec_run st' (fst (spec_step s (readFd_capacity (fst st)) o)) rest
+      | Ok (st', _) => spec_run st' (fst (spec_step s (fst st) o)) rest
       | _ => s
       end
   end.
@@ -484,8 +585,8 @@ Lemma refines_fifo st s : reach st s ->
   readable (fst st) = fst s /\ readable (snd st) = snd s /\
   forall o,
     if guard (fst st) o then
-      exists st', step st o = Ok (st', snd (spec_step s (readFd_capacity (fst st)) o)) /\
-                  reach st' (fst (spec_step s (readFd_capacity (fst st)) o))
+      exists st', step st o = Ok (st', snd (spec_step s (fst st) o)) /\
+                  reach st' (fst (spec_step s (fst st) o))
     else step st o = Rejected.
 Proof.
   intros Hr. pose proof (reach_inv st s Hr) as [HI HI2].
@@ -528,13 +629,14 @@ Qed.
 Lemma readfd_exact st s avail : reach st s ->
   let cap := readFd_capacity (fst st) in
   let n := Nat.min cap (length avail) in
-  exists st', step st (ReadFd avail) = Ok (st', ONat n) /\
+  exists st', step st (ReadFd (KData avail)) =
+                Ok (st', ORead (mkRfd (Z.of_nat n) (readFd_iovcnt (fst st)) (writableBytes (fst st)) None)) /\
               readable (fst st') = readable (fst st) ++ firstn n avail /\
               readable (snd st') = readable (snd st).
 Proof.
   intros Hr cap n. pose proof (reach_inv st s Hr) as [HI HI2].
-  pose proof (step_refines st s (ReadFd avail) (conj HI HI2)) as H.
-  cbn [guard spec_step fst snd] in H. destruct H as (st' & E & [HI' HI2']).
+  pose proof (step_refines st s (ReadFd (KData avail)) (conj HI HI2)) as H.
+  cbn [guard spec_step fst snd delivered] in H. destruct H as (st' & E & [HI' HI2']).
   cbn [fst snd] in HI', HI2'.
   exists st'. fold cap in E, HI'. rewrite firstn_length in E.
   split; [exact E|].
@@ -545,75 +647,110 @@ Proof.
   - rewrite Nat.min_r by assumption. rewrite !firstn_all2 by lia. reflexivity.
 Qed.
 
-Lemma append_peek_roundtrip st s k x st1 o1 :
-  reach st s -> fst s = [] -> 0 < k -> signed_range k x ->
-  step st (AppendInt k x) = Ok (st1, o1) ->
-  step st1 (PeekInt k) = Ok (st1, OInt x) /\ readable (fst st1) = be_encode k x.
+(* readv failed: the buffer (the whole concrete state, not only its readable part) is
+   untouched, -1 is returned and errno is handed to the caller *)
+Lemma readfd_error st e :
+  step st (ReadFd (KErr e)) =
+  Ok (st, ORead (mkRfd (-1) (readFd_iovcnt (fst st)) (writableBytes (fst st)) (Some e))).
+Proof. destruct st as [b b2]. reflexivity. Qed.
+
+(* the iovec choice: the second iovec (extrabuf) is offered exactly when the buffer's own
+   writable space is smaller than extrabuf; the capacity offered is the sum of the iovecs *)
+Lemma readfd_iovcnt b :
+  readFd_iovcnt b = (if writableBytes b <? kExtraBuf then 2 else 1) /\
+  readFd_capacity b = writableBytes b + (if readFd_iovcnt b =? 2 then kExtraBuf else 0) /\
+  readFd_capacity b < 2 * Nat.max (writableBytes b) kExtraBuf + 1 /\
+  (readFd_iovcnt b = 2 -> readFd_capacity b <= 2 * kExtraBuf - 1).
 Proof.
-  intros Hr Hs Hk Hx E1.
-  pose proof (refines_fifo st s Hr) as (_ & _ & H). specialize (H (AppendInt k x)).
+  split; [reflexivity|]. split; [apply readFd_capacity_iovcnt|].
+  unfold readFd_capacity, readFd_iovcnt.
+  destruct (Nat.ltb_spec (writableBytes b) kExtraBuf); split; try lia; intros; discriminate.
+Qed.
+
+Lemma capacity_bound st s : reach st s ->
+  step st InternalCapacity =
+    Ok (st, ONat (prependableBytes (fst st) + readableBytes (fst st) + writableBytes (fst st))) /\
+  internalCapacity_lb (fst st) = length (store (fst st)).
+Proof.
+  intros Hr. pose proof (sizes_consistent st s Hr) as (_ & _ & _ & H4). cbn zeta in H4.
+  split; [|reflexivity]. cbn [step]. unfold internalCapacity_lb. rewrite H4. reflexivity.
+Qed.
+
+Lemma append_peek_roundtrip st s w x st1 o1 :
+  reach st s -> fst s = [] -> signed_range (wbytes w) x ->
+  step st (AppendInt w x) = Ok (st1, o1) ->
+  step st1 (PeekInt w) = Ok (st1, OInt x) /\ readable (fst st1) = be_encode (wbytes w) x /\
+  exists st2, step st1 (ReadInt w) = Ok (st2, OInt x) /\ readable (fst st2) = [].
+Proof.
+  intros Hr Hs Hx E1. assert (Hk : 0 < wbytes w) by (destruct w; cbn; lia).
+  pose proof (refines_fifo st s Hr) as (_ & _ & H). specialize (H (AppendInt w x)).
   cbn [guard] in H. destruct H as (st' & E & Hr').
   rewrite E in E1. injection E1 as <- _.
   cbn [spec_step fst snd] in Hr'. rewrite Hs in Hr'. cbn [app] in Hr'.
   pose proof (refines_fifo _ _ Hr') as (Hrd & _ & H). cbn [fst] in Hrd.
-  split; [|exact Hrd].
-  specialize (H (PeekInt k)). cbn [guard] in H.
   pose proof (sizes_consistent _ _ Hr') as (_ & _ & Hlen & _). cbn [fst] in Hlen.
-  rewrite be_encode_length in Hlen. rewrite Hlen, Nat.leb_refl in H.
-  destruct H as (st2 & E2 & _). cbn [spec_step fst snd] in E2.
-  rewrite <- (app_nil_r (be_encode k x)) in E2 at 1.
-  rewrite int_roundtrip_spec in E2 by assumption.
-  cbn [step] in E2 |- *. destruct (peekInt k (fst st')) as [z| |]; cbn [bind] in *; try discriminate.
-  injection E2 as _ ->. reflexivity.
+  rewrite be_encode_length in Hlen.
+  assert (Hdec : be_decode_signed (firstn (wbytes w) (be_encode (wbytes w) x)) = x).
+  { rewrite <- (app_nil_r (be_encode (wbytes w) x)). apply int_roundtrip_spec; assumption. }
+  split; [|split; [exact Hrd|]].
+  - specialize (H (PeekInt w)). cbn [guard] in H. rewrite Hlen, Nat.leb_refl in H.
+    destruct H as (st2 & E2 & _). cbn [spec_step fst snd] in E2. rewrite Hdec in E2.
+    cbn [step] in E2 |- *. destruct (peekInt w (fst st')) as [z| |]; cbn [bind] in *; try discriminate.
+    injection E2 as _ ->. reflexivity.
+  - specialize (H (ReadInt w)). cbn [guard] in H. rewrite Hlen, Nat.leb_refl in H.
+    destruct H as (st2 & E2 & Hr2). cbn [spec_step fst snd] in E2, Hr2. rewrite Hdec in E2.
+    exists st2. split; [exact E2|].
+    pose proof (refines_fifo _ _ Hr2) as (Hrd2 & _ & _). cbn [fst] in Hrd2.
+    rewrite Hrd2. rewrite <- (be_encode_length (wbytes w) x) at 1. apply skipn_all.
 Qed.
 
-Lemma prepend_peek_roundtrip st s k x st1 o1 :
-  reach st s -> 0 < k -> signed_range k x ->
-  step st (PrependInt k x) = Ok (st1, o1) ->
-  step st1 (PeekInt k) = Ok (st1, OInt x) /\
-  readable (fst st1) = be_encode k x ++ readable (fst st).
+Lemma prepend_peek_roundtrip st s w x st1 o1 :
+  reach st s -> signed_range (wbytes w) x ->
+  step st (PrependInt w x) = Ok (st1, o1) ->
+  step st1 (PeekInt w) = Ok (st1, OInt x) /\
+  readable (fst st1) = be_encode (wbytes w) x ++ readable (fst st) /\
+  exists st2, step st1 (ReadInt w) = Ok (st2, OInt x) /\ readable (fst st2) = readable (fst st).
 Proof.
-  intros Hr Hk Hx E1.
-  pose proof (refines_fifo st s Hr) as (Hrd0 & _ & H). specialize (H (PrependInt k x)).
-  destruct (guard (fst st) (PrependInt k x)); [|rewrite H in E1; discriminate].
+  intros Hr Hx E1. assert (Hk : 0 < wbytes w) by (destruct w; cbn; lia).
+  pose proof (refines_fifo st s Hr) as (Hrd0 & _ & H). specialize (H (PrependInt w x)).
+  destruct (guard (fst st) (PrependInt w x)); [|rewrite H in E1; discriminate].
   destruct H as (st' & E & Hr').
   rewrite E in E1. injection E1 as <- _.
   cbn [spec_step fst snd] in Hr'.
   pose proof (refines_fifo _ _ Hr') as (Hrd & _ & H). cbn [fst] in Hrd.
-  split; [|rewrite Hrd, Hrd0; reflexivity].
-  specialize (H (PeekInt k)). cbn [guard] in H.
   pose proof (sizes_consistent _ _ Hr') as (_ & _ & Hlen & _). cbn [fst] in Hlen.
   rewrite app_length, be_encode_length in Hlen.
-  destruct (Nat.leb_spec k (readableBytes (fst st'))); [|lia].
-  destruct H as (st2 & E2 & _). cbn [spec_step fst snd] in E2.
-  rewrite int_roundtrip_spec in E2 by assumption.
-  cbn [step] in E2 |- *. destruct (peekInt k (fst st')) as [z| |]; cbn [bind] in *; try discriminate.
-  injection E2 as _ ->. reflexivity.
+  split; [|split; [rewrite Hrd, Hrd0; reflexivity|]].
+  - specialize (H (PeekInt w)). cbn [guard] in H.
+    destruct (Nat.leb_spec (wbytes w) (readableBytes (fst st'))); [|lia].
+    destruct H as (st2 & E2 & _). cbn [spec_step fst snd] in E2.
+    rewrite int_roundtrip_spec in E2 by assumption.
+    cbn [step] in E2 |- *. destruct (peekInt w (fst st')) as [z| |]; cbn [bind] in *; try discriminate.
+    injection E2 as _ ->. reflexivity.
+  - specialize (H (ReadInt w)). cbn [guard] in H.
+    destruct (Nat.leb_spec (wbytes w) (readableBytes (fst st'))); [|lia].
+    destruct H as (st2 & E2 & Hr2). cbn [spec_step fst snd] in E2, Hr2.
+    rewrite int_roundtrip_spec in E2 by assumption.
+    exists st2. split; [exact E2|].
+    pose proof (refines_fifo _ _ Hr2) as (Hrd2 & _ & _). cbn [fst] in Hrd2.
+    rewrite Hrd2, Hrd0. rewrite <- (be_encode_length (wbytes w) x) at 1. apply skipn_app_exact.
 Qed.
 
-Lemma find_first_crlf st s from r : reach st s ->
-  step st (FindCRLF from) = Ok (st, OIdx r) ->
-  let l := readable (fst st) in
-  from <= length l /\
-  match r with
+(* first match at or after a start pointer, inside the readable region only *)
+Lemma find_spec_crlf (l : list byte) from : from <= length l ->
+  match option_map (fun i => from + i) (find_crlf (skipn from l)) with
   | Some i => from <= i /\ crlf_at l i /\ S i < length l /\
               forall j, from <= j < i -> ~ crlf_at l j
   | None => forall j, from <= j -> ~ crlf_at l j
   end.
 Proof.
-  intros Hr E l.
-  pose proof (refines_fifo st s Hr) as (Hrd & _ & H). specialize (H (FindCRLF from)).
-  pose proof (sizes_consistent _ _ Hr) as (_ & _ & Hlen & _). cbn zeta in Hlen.
-  cbn [guard] in H. destruct (Nat.leb_spec from (readableBytes (fst st))) as [Hg|Hg];
-    [|rewrite H in E; discriminate].
-  destruct H as (st' & E' & _). rewrite E' in E. cbn [spec_step fst snd] in E.
-  injection E as _ Er. unfold l. rewrite Hrd. split; [lia|].
-  pose proof (find_crlf_spec (skipn from (fst s))) as Hspec.
-  assert (Hnth : forall j, nth_error (skipn from (fst s)) j = nth_error (fst s) (from + j)).
-  { intros j. rewrite <- (firstn_skipn from (fst s)) at 2.
+  intros Hf.
+  pose proof (find_crlf_spec (skipn from l)) as Hspec.
+  assert (Hnth : forall j, nth_error (skipn from l) j = nth_error l (from + j)).
+  { intros j. rewrite <- (firstn_skipn from l) at 2.
     rewrite nth_error_app2; rewrite firstn_length_le by lia; [|lia].
     f_equal. lia. }
-  destruct (find_crlf (skipn from (fst s))) as [i|]; cbn [option_map] in Er; subst r.
+  destruct (find_crlf (skipn from l)) as [i|]; cbn [option_map].
   - destruct Hspec as [[Ha Hb] Hmin]. rewrite Hnth in Ha, Hb.
     split; [lia|]. split; [split; [exact Ha|rewrite <- Nat.add_succ_r; exact Hb]|].
     split.
@@ -628,29 +765,20 @@ Proof.
     + replace (from + S (j - from)) with (S j) by lia. exact Hc2.
 Qed.
 
-Lemma find_first_eol st s from r : reach st s ->
-  step st (FindEOL from) = Ok (st, OIdx r) ->
-  let l := readable (fst st) in
-  from <= length l /\
-  match r with
+Lemma find_spec_eol (l : list byte) from : from <= length l ->
+  match option_map (fun i => from + i) (find_eol (skipn from l)) with
   | Some i => from <= i /\ eol_at l i /\ i < length l /\
               forall j, from <= j < i -> ~ eol_at l j
   | None => forall j, from <= j -> ~ eol_at l j
   end.
 Proof.
-  intros Hr E l.
-  pose proof (refines_fifo st s Hr) as (Hrd & _ & H). specialize (H (FindEOL from)).
-  pose proof (sizes_consistent _ _ Hr) as (_ & _ & Hlen & _). cbn zeta in Hlen.
-  cbn [guard] in H. destruct (Nat.leb_spec from (readableBytes (fst st))) as [Hg|Hg];
-    [|rewrite H in E; discriminate].
-  destruct H as (st' & E' & _). rewrite E' in E. cbn [spec_step fst snd] in E.
-  injection E as _ Er. unfold l. rewrite Hrd. split; [lia|].
-  pose proof (find_eol_spec (skipn from (fst s))) as Hspec.
-  assert (Hnth : forall j, nth_error (skipn from (fst s)) j = nth_error (fst s) (from + j)).
-  { intros j. rewrite <- (firstn_skipn from (fst s)) at 2.
+  intros Hf.
+  pose proof (find_eol_spec (skipn from l)) as Hspec.
+  assert (Hnth : forall j, nth_error (skipn from l) j = nth_error l (from + j)).
+  { intros j. rewrite <- (firstn_skipn from l) at 2.
     rewrite nth_error_app2; rewrite firstn_length_le by lia; [|lia].
     f_equal. lia. }
-  destruct (find_eol (skipn from (fst s))) as [i|]; cbn [option_map] in Er; subst r.
+  destruct (find_eol (skipn from l)) as [i|]; cbn [option_map].
   - destruct Hspec as [Ha Hmin]. unfold eol_at in *. rewrite Hnth in Ha.
     split; [lia|]. split; [exact Ha|]. split.
     + apply nth_error_Some. rewrite Ha. discriminate.
@@ -658,4 +786,242 @@ Proof.
       rewrite Hnth. replace (from + (j - from)) with j by lia. exact Hc.
   - intros j Hj Hc. apply (Hspec (j - from)). unfold eol_at in *.
     rewrite Hnth. replace (from + (j - from)) with j by lia. exact Hc.
+Qed.
+
+(* [o] is FindCRLF off or (off = 0) FindCRLF0; accepted iff the start pointer lies in
+   [peek(), beginWrite()] *)
+Lemma find_first_crlf st s off r o : reach st s ->
+  o = FindCRLF off \/ (o = FindCRLF0 /\ off = 0%Z) ->
+  step st o = Ok (st, OIdx r) ->
+  let l := readable (fst st) in
+  let from := Z.to_nat off in
+  (0 <= off <= Z.of_nat (length l))%Z /\
+  match r with
+  | Some i => from <= i /\ crlf_at l i /\ S i < length l /\
+              forall j, from <= j < i -> ~ crlf_at l j
+  | None => forall j, from <= j -> ~ crlf_at l j
+  end.
+Proof.
+  intros Hr Ho E l from.
+  pose proof (refines_fifo st s Hr) as (Hrd & _ & H). specialize (H o).
+  pose proof (sizes_consistent _ _ Hr) as (_ & _ & Hlen & _). cbn zeta in Hlen.
+  assert (Hg : guard (fst st) o = true -> (0 <= off <= Z.of_nat (length l))%Z).
+  { destruct Ho as [->|[-> ->]]; cbn [guard]; [|lia].
+    intros Hp. apply ptr_ok_true in Hp. unfold l. rewrite Hrd. lia. }
+  destruct (guard (fst st) o); [|rewrite H in E; discriminate].
+  specialize (Hg eq_refl). split; [exact Hg|].
+  destruct H as (st' & E' & _). rewrite E' in E.
+  assert (Er : option_map (fun i => from + i) (find_crlf (skipn from (fst s))) = r).
+  { destruct Ho as [->|[-> ->]]; cbn [spec_step fst snd] in E; injection E as _ Er; exact Er. }
+  unfold l. rewrite Hrd. rewrite <- Er.
+  apply find_spec_crlf. unfold l in Hg. rewrite Hrd in Hg. unfold from. lia.
+Qed.
+
+Lemma find_first_eol st s off r o : reach st s ->
+  o = FindEOL off \/ (o = FindEOL0 /\ off = 0%Z) ->
+  step st o = Ok (st, OIdx r) ->
+  let l := readable (fst st) in
+  let from := Z.to_nat off in
+  (0 <= off <= Z.of_nat (length l))%Z /\
+  match r with
+  | Some i => from <= i /\ eol_at l i /\ i < length l /\
+              forall j, from <= j < i -> ~ eol_at l j
+  | None => forall j, from <= j -> ~ eol_at l j
+  end.
+Proof.
+  intros Hr Ho E l from.
+  pose proof (refines_fifo st s Hr) as (Hrd & _ & H). specialize (H o).
+  pose proof (sizes_consistent _ _ Hr) as (_ & _ & Hlen & _). cbn zeta in Hlen.
+  assert (Hg : guard (fst st) o = true -> (0 <= off <= Z.of_nat (length l))%Z).
+  { destruct Ho as [->|[-> ->]]; cbn [guard]; [|lia].
+    intros Hp. apply ptr_ok_true in Hp. unfold l. rewrite Hrd. lia. }
+  destruct (guard (fst st) o); [|rewrite H in E; discriminate].
+  specialize (Hg eq_refl). split; [exact Hg|].
+  destruct H as (st' & E' & _). rewrite E' in E.
+  assert (Er : option_map (fun i => from + i) (find_eol (skipn from (fst s))) = r).
+  { destruct Ho as [->|[-> ->]]; cbn [spec_step fst snd] in E; injection E as _ Er; exact Er. }
+  unfold l. rewrite Hrd. rewrite <- Er.
+  apply find_spec_eol. unfold l in Hg. rewrite Hrd in Hg. unfold from. lia.
+Qed.
+
+(* ---- the ghost counter [up]: only prepend / prependIntN raise it -------------- *)
+Ltac split_ok H :=
+  repeat (match type of H with
+          | context [if ?c then _ else _] => destruct c
+          | context [mem ?o] => destruct o; cbn [mem bind] in H
+          | Rejected = Ok _ => discriminate H
+          | Fault = Ok _ => discriminate H
+          | bind Rejected _ = _ => discriminate H
+          | bind Fault _ = _ => discriminate H
+          | Ok _ = Ok _ => injection H as H
+          end; cbn [bind] in H).
+
+Lemma makeSpace_up len b b' : makeSpace len b = Ok b' -> up b' <= up b.
+Proof. unfold makeSpace. intros H. split_ok H; subst b'; cbn [up]; lia. Qed.
+
+Lemma ensureWritable_up len b b' : ensureWritable len b = Ok b' -> up b' <= up b.
+Proof.
+  unfold ensureWritable. intros H.
+  destruct (writableBytes b <? len).
+  - destruct (makeSpace len b) as [b1| |] eqn:E; cbn [bind] in H; try discriminate.
+    apply makeSpace_up in E. split_ok H. subst b'. exact E.
+  - cbn [bind] in H. split_ok H. subst b'. lia.
+Qed.
+
+Lemma append_up d b b' : append d b = Ok b' -> up b' <= up b.
+Proof.
+  unfold append. intros H.
+  destruct (ensureWritable (length d) b) as [b1| |] eqn:E; cbn [bind] in H; try discriminate.
+  apply ensureWritable_up in E. split_ok H. subst b'. cbn [up]. exact E.
+Qed.
+
+Lemma retrieve_up n b b' : retrieve n b = Ok b' -> up b' <= up b.
+Proof. unfold retrieve, retrieveAll. intros H. split_ok H; subst b'; cbn [up]; lia. Qed.
+
+Lemma hasWritten_up d b b' : hasWrittenBytes d b = Ok b' -> up b' <= up b.
+Proof. unfold hasWrittenBytes. intros H. split_ok H; subst b'; cbn [up]; lia. Qed.
+
+Lemma unwrite_up n b b' : unwrite n b = Ok b' -> up b' <= up b.
+Proof. unfold unwrite. intros H. split_ok H; subst b'; cbn [up]; lia. Qed.
+
+Lemma shrink_up r b b' : shrink r b = Ok b' -> up b' = 0.
+Proof.
+  unfold shrink. intros H.
+  destruct (mem (read_at (store b) (ridx b) (readableBytes b))) as [d| |]; cbn [bind] in H; try discriminate.
+  destruct (ensureWritable _ (new_buf kInitialSize)) as [o1| |] eqn:E; cbn [bind] in H; try discriminate.
+  apply ensureWritable_up in E. apply append_up in H. cbn [new_buf up] in E. lia.
+Qed.
+
+Lemma readFd_up k b b' r : readFd k b = Ok (b', r) -> up b' <= up b.
+Proof.
+  unfold readFd. intros H. destruct k as [avail|e]; [|injection H as <- _; lia].
+  destruct (length (firstn (readFd_capacity b) avail) <=? writableBytes b).
+  - split_ok H. subst b'. cbn [up]. lia.
+  - destruct (mem (write_at (store b) (widx b) _)) as [s'| |]; cbn [bind] in H; try discriminate.
+    destruct (_ && _); [|discriminate].
+    destruct (append _ _) as [b2| |] eqn:E; cbn [bind] in H; try discriminate.
+    apply append_up in E. cbn [up] in E. injection H as <- _. exact E.
+Qed.
+
+(* an op that is not a prepend (and not a swap with / copy to the other buffer) never raises [up] *)
+Definition prepends (o : op) : bool :=
+  match o with Prepend _ | PrependInt _ _ => true | _ => false end.
+
+Lemma step_up st o st' out : step st o = Ok (st', out) -> prepends o = false ->
+  (up (fst st') <= up (fst st) /\ up (snd st') <= up (snd st)) \/
+  (o = Swap /\ st' = (snd st, fst st)) \/ (o = Assign /\ st' = (fst st, fst st)).
+Proof.
+  destruct st as [b b2]. intros H Hp.
+  destruct o; cbn [prepends] in Hp; try discriminate Hp; cbn [step on_fst fst snd] in H.
+  - destruct (append d b) as [b'| |] eqn:E; cbn [bind] in H; try discriminate.
+    apply append_up in E. injection H as <- _. left. cbn [fst snd]. lia.
+  - destruct (retrieve n b) as [b'| |] eqn:E; cbn [bind] in H; try discriminate.
+    apply retrieve_up in E. injection H as <- _. left. cbn [fst snd]. lia.
+  - unfold retrieveUntil in H. destruct (ptr_ok off b); [|discriminate].
+    destruct (retrieve _ b) as [b'| |] eqn:E; cbn [bind] in H; try discriminate.
+    apply retrieve_up in E. injection H as <- _. left. cbn [fst snd]. lia.
+  - unfold retrieveInt in H.
+    destruct (retrieve _ b) as [b'| |] eqn:E; cbn [bind] in H; try discriminate.
+    apply retrieve_up in E. injection H as <- _. left. cbn [fst snd]. lia.
+  - injection H as <- _. left. cbn [fst snd retrieveAll up]. lia.
+  - unfold retrieveAsString in H.
+    destruct (peekBytes n b) as [d| |]; cbn [bind] in H; try discriminate.
+    destruct (retrieve n b) as [b'| |] eqn:E; cbn [bind fst snd] in H; try discriminate.
+    apply retrieve_up in E. injection H as <- _. left. cbn [fst snd]. lia.
+  - unfold retrieveAllAsString, retrieveAsString in H.
+    destruct (peekBytes _ b) as [d| |]; cbn [bind] in H; try discriminate.
+    destruct (retrieve _ b) as [b'| |] eqn:E; cbn [bind fst snd] in H; try discriminate.
+    apply retrieve_up in E. injection H as <- _. left. cbn [fst snd]. lia.
+  - destruct (toStringPiece b); cbn [bind] in H; try discriminate.
+    injection H as <- _. left. cbn [fst snd]. lia.
+  - destruct (ensureWritable n b) as [b'| |] eqn:E; cbn [bind] in H; try discriminate.
+    apply ensureWritable_up in E. injection H as <- _. left. cbn [fst snd]. lia.
+  - destruct (hasWrittenBytes d b) as [b'| |] eqn:E; cbn [bind] in H; try discriminate.
+    apply hasWritten_up in E. injection H as <- _. left. cbn [fst snd]. lia.
+  - destruct (unwrite n b) as [b'| |] eqn:E; cbn [bind] in H; try discriminate.
+    apply unwrite_up in E. injection H as <- _. left. cbn [fst snd]. lia.
+  - destruct (shrink reserve b) as [b'| |] eqn:E; cbn [bind] in H; try discriminate.
+    apply shrink_up in E. injection H as <- _. left. cbn [fst snd]. lia.
+  - injection H as <- _. left. cbn [fst snd]. lia.
+  - injection H as <- _. right. left. split; reflexivity.
+  - injection H as <- _. right. right. split; reflexivity.
+  - destruct (readFd k b) as [[b' r]| |] eqn:E; cbn [bind fst snd] in H; try discriminate.
+    apply readFd_up in E. injection H as <- _. left. cbn [fst snd]. lia.
+  - unfold appendInt in H.
+    destruct (append _ b) as [b'| |] eqn:E; cbn [bind] in H; try discriminate.
+    apply append_up in E. injection H as <- _. left. cbn [fst snd]. lia.
+  - destruct (peekInt w b); cbn [bind] in H; try discriminate.
+    injection H as <- _. left. cbn [fst snd]. lia.
+  - unfold readInt, retrieveInt in H.
+    destruct (peekInt w b); cbn [bind] in H; try discriminate.
+    destruct (retrieve _ b) as [b'| |] eqn:E; cbn [bind fst snd] in H; try discriminate.
+    apply retrieve_up in E. injection H as <- _. left. cbn [fst snd]. lia.
+  - destruct (findFrom find_crlf 0 b); cbn [bind] in H; try discriminate.
+    injection H as <- _. left. cbn [fst snd]. lia.
+  - destruct (findFrom find_eol 0 b); cbn [bind] in H; try discriminate.
+    injection H as <- _. left. cbn [fst snd]. lia.
+  - destruct (findAt find_crlf from b); cbn [bind] in H; try discriminate.
+    injection H as <- _. left. cbn [fst snd]. lia.
+  - destruct (findAt find_eol from b); cbn [bind] in H; try discriminate.
+    injection H as <- _. left. cbn [fst snd]. lia.
+Qed.
+
+Lemma run_up0 ops : forall st st' outs,
+  run st ops = Ok (st', outs) -> forallb (fun o => negb (prepends o)) ops = true ->
+  up (fst st) = 0 -> up (snd st) = 0 -> up (fst st') = 0 /\ up (snd st') = 0.
+Proof.
+  induction ops as [|o rest IH]; intros st st' outs Hrun Hall U1 U2.
+  - cbn in Hrun. injection Hrun as <- _. split; assumption.
+  - cbn [run] in Hrun. cbn [forallb] in Hall. apply andb_true_iff in Hall as [Ho Hall].
+    apply negb_true_iff in Ho.
+    destruct (step st o) as [[st1 o1]| |] eqn:E; cbn [bind fst snd] in Hrun; try discriminate.
+    destruct (run st1 rest) as [[st2 o2]| |] eqn:E2; cbn [bind fst snd] in Hrun; try discriminate.
+    injection Hrun as <- _.
+    apply (IH st1 st2 o2 E2 Hall).
+    + destruct (step_up st o st1 o1 E Ho) as [[A B]|[[_ ->]|[_ ->]]]; cbn [fst snd]; lia.
+    + destruct (step_up st o st1 o1 E Ho) as [[A B]|[[_ ->]|[_ ->]]]; cbn [fst snd]; lia.
+Qed.
+
+(* the corollary the property text states: as long as the caller has not used the prepend
+   area (no prepend / prependIntN in the history, on either buffer), at least kCheapPrepend
+   bytes are prependable -- after growth, compaction, retrieve-all, shrink, swap, readFd *)
+Lemma cheap_prepend_unused n m ops st outs :
+  run (new_buf n, new_buf m) ops = Ok (st, outs) ->
+  forallb (fun o => negb (prepends o)) ops = true ->
+  kCheapPrepend <= prependableBytes (fst st) /\ kCheapPrepend <= prependableBytes (snd st).
+Proof.
+  intros Hrun Hall.
+  destruct (run_up0 ops _ _ _ Hrun Hall eq_refl eq_refl) as [U1 U2].
+  pose proof (run_reach _ ([], []) ops st outs (reach_init n m) Hrun) as Hr.
+  destruct (reach_inv _ _ Hr) as [(p1 & q1 & _ & _ & _ & C1 & _) (p2 & q2 & _ & _ & _ & C2 & _)].
+  unfold prependableBytes. lia.
+Qed.
+
+(* consequently a prependIntN / prepend of at most kCheapPrepend bytes is accepted then;
+   this is what ProtobufCodecLite::fillEmptyBuffer relies on (C18) *)
+Lemma prepend_accepted_when_unused n m ops st outs d :
+  run (new_buf n, new_buf m) ops = Ok (st, outs) ->
+  forallb (fun o => negb (prepends o)) ops = true ->
+  length d <= kCheapPrepend ->
+  exists st', step st (Prepend d) = Ok (st', OUnit) /\
+              readable (fst st') = d ++ readable (fst st).
+Proof.
+  intros Hrun Hall Hd.
+  destruct (cheap_prepend_unused n m ops st outs Hrun Hall) as [Hp _].
+  pose proof (run_reach _ ([], []) ops st outs (reach_init n m) Hrun) as Hr.
+  pose proof (refines_fifo _ _ Hr) as (Hrd & _ & H). specialize (H (Prepend d)).
+  cbn [guard] in H. destruct (Nat.leb_spec (length d) (prependableBytes (fst st))); [|lia].
+  destruct H as (st' & E & Hr'). exists st'. split; [exact E|].
+  pose proof (refines_fifo _ _ Hr') as (Hrd' & _ & _). cbn [spec_step fst snd] in Hrd'.
+  rewrite Hrd', Hrd. reflexivity.
+Qed.
+
+(* ---- the constructor's three assertions (Buffer.h:53-55) ---------------------- *)
+Lemma constructor_asserts n :
+  readableBytes (new_buf n) = 0 /\ writableBytes (new_buf n) = n /\
+  prependableBytes (new_buf n) = kCheapPrepend /\ readable (new_buf n) = [].
+Proof.
+  pose proof (new_buf_writable n) as Hw. pose proof (inv_readable _ _ (new_buf_inv n)) as Hr.
+  unfold readableBytes, prependableBytes, new_buf in *. cbn [ridx widx] in *.
+  repeat split; try lia; assumption.
 Qed.
